@@ -4,15 +4,17 @@ from ..harness import c13 as _h   # noqa: F401  (predicate lives next to the obl
 H = 'vt.harness.c13'
 L = 'replicat.backends.local:Local.'
 EXPLANATION = (
-    'Claimed for the local backend. No arithmetic beyond string slicing: the operation history (per name one of 7 action sequences over upload, '
+    'No arithmetic beyond string slicing: the operation history (per name one of 7 action sequences over upload, '
     'upload_stream, delete, overwrite, empty payload), the repository path spelling (9 spellings incl. ".", "./", trailing slashes, "x/../r", '
     'absolute) are digits of a symbolic vector realize()d by z3 through CrossHair; after the history a plain dict is compared with exists / download / '
     'download_stream for every name and list_files for 14 prefixes (incl. prefixes that name a directory without the slash and sibling names sharing '
     'a prefix), through the same and through a fresh Local instance. Known finding F11: names ending in ".tmp" are hidden from listings. '
-    'S3 and B2 adapters need fake services behind httpx.MockTransport; they are not part of this claim (see C12/C13 notes in DESIGN.md).'
+    'E.remote runs the real S3-compatible and B2 adapters on the deterministic loop against fake services (vt/fakes.py: my reading of ListObjectsV2 paging with continuation tokens, '
+    'b2_list_file_names with nextFileName, b2_hide_file with already_hidden/no_such_file, upload URLs, authorisation tokens) with listing pages of 1, 2 and 1000 objects. '
+    'Request signing is not checked (C16 is not applicable).'
 )
 ASSUMPTIONS = ['names: no name is a directory prefix of another; 7 names over two sets; payload sizes 1..7 and 3*chunk+1 with stream chunk 16',
-               'S3-compatible and B2 adapters are outside the claim']
+               'S3/B2: the services are fakes written from the public API descriptions; real sockets, TLS and request signing are outside the claim']
 
 
 def obligations(tier):
@@ -22,4 +24,8 @@ def obligations(tier):
            module=H, func='e_store', timeout=1800, shards=16),
         Ob('E.store2', 'E', 'second name set: single-segment name, non-ASCII name, a name ending in .tmp', '9 x 7^3 = 3087', [L + 'list_files'], module=H,
            func='e_store2', timeout=1200, shards=4, known={'F11': _h.known_f11}),
+        Ob('E.remote', 'E', 'S3-compatible and B2 adapters against fake services (httpx.MockTransport): == dict through exists/download/download_stream and list_files with listing pages of 1, 2, 1000 objects',
+           '2 adapters x 3 page sizes x 7^4 action tuples (+3 fixed objects) = 14406', ['replicat.backends.s3c:S3Compatible.list_files', 'replicat.backends.s3c:S3Compatible.upload_stream',
+            'replicat.backends.b2:B2.list_files', 'replicat.backends.b2:B2.delete', 'replicat.backends.b2:B2.upload_stream', 'replicat.backends.b2:B2.exists'],
+           module=H, func='e_remote', timeout=1800, shards=16),
     ]
